@@ -3,12 +3,14 @@
 package main
 
 import (
+	"crypto"
 	"crypto/x509"
 	"fmt"
 	"math/big"
 	"math/rand"
 	"os"
 	"path/filepath"
+	"strings"
 
 	"verif/harness/lab/crlgen"
 	"verif/harness/lab/gen"
@@ -95,22 +97,38 @@ func main() {
 		run.Finish(100)
 		return
 	}
-	w := world.New(fmt.Sprintf("C16-%d", si))
-	defer w.Close()
-	e := &cellEnv{w: w, sibling: w.Root.Issue(pki.CertOpts{RawSubject: w.Int.Cert.RawSubject, IsCA: true}), rng: rand.New(rand.NewSource(run.Seed + int64(si))), scratch: scratch}
-
-	for ci, c := range cells {
-		if ci%sn != si {
-			continue
+	// rounds: the whole matrix once with an ECDSA issuing CA (counted for 'exhaustive'), once with an
+	// RSA issuing CA; thorough repeats with further seeds
+	rounds := []string{"ecdsa", "rsa"}
+	if run.Thorough() {
+		rounds = []string{"ecdsa", "rsa", "ecdsa#2", "rsa#2", "ecdsa#3", "ecdsa#4"}
+	}
+	for ri, round := range rounds {
+		var w *world.World
+		var sibKey crypto.Signer
+		if strings.HasPrefix(round, "rsa") {
+			w = world.NewWithKeys(fmt.Sprintf("C16-%d-%d", si, ri), nil, pki.RSAKey(0))
+			sibKey = pki.RSAKey(1)
+		} else {
+			w = world.New(fmt.Sprintf("C16-%d-%d", si, ri))
 		}
-		desc := fmt.Sprintf("mode=%s crl=%s intake=%s backend=%s", modeName(c.Mode), c.Kind, c.Intake, c.Backend)
-		keyBase := fmt.Sprintf("%s.%s.%s", c.Intake, modeName(c.Mode), c.Kind)
-		run.Eval(1)
-		run.Count("cells_run", 1)
-		ok := e.runCell(run, c.Mode, c.Kind, c.Intake, c.Backend, desc, keyBase)
-		if ok {
-			run.NonTrivial(desc)
+		e := &cellEnv{w: w, sibling: w.Root.Issue(pki.CertOpts{RawSubject: w.Int.Cert.RawSubject, IsCA: true, Key: sibKey}), rng: rand.New(rand.NewSource(run.Seed*131 + int64(si) + int64(ri)*7919)), scratch: scratch, n: ri * 100000}
+		for ci, c := range cells {
+			if ci%sn != si {
+				continue
+			}
+			desc := fmt.Sprintf("mode=%s crl=%s intake=%s backend=%s keys=%s", modeName(c.Mode), c.Kind, c.Intake, c.Backend, round)
+			keyBase := fmt.Sprintf("%s.%s.%s", c.Intake, modeName(c.Mode), c.Kind)
+			run.Eval(1)
+			if ri == 0 {
+				run.Count("cells_run", 1)
+			}
+			ok := e.runCell(run, c.Mode, c.Kind, c.Intake, c.Backend, desc, keyBase)
+			if ok {
+				run.NonTrivial(desc)
+			}
 		}
+		w.Close()
 	}
 	run.FinishShard()
 }
